@@ -4,7 +4,9 @@ package main
 
 import (
 	"fmt"
+	"go/types"
 	"os"
+	"reflect"
 	"sort"
 	"strings"
 
@@ -155,6 +157,31 @@ func registerHarnessAPI(e *Exec) {
 			id := e.alloc(st, ByteBuf{C: &CBase{arr}, Len: ln})
 			return ret(st, SliceV{Base: Ptr{Obj: id}, Off: e.tc.Int(0), Len: ln, Cap: ln})
 		},
+		"vBytesEach": func(e *Exec, st *State, fn *ssa.Function, args []Value) []Outcome {
+			// like vBytes but forks over every length 0..max so that the length is concrete on each path
+			name := e.nondetName(st, e.argString(args[0]))
+			max := e.argInt(args[1])
+			ln := e.tc.Var(name+".len", 64)
+			arr := e.tc.ArrayVar(name + ".arr")
+			var outs []Outcome
+			for k := 0; k <= max; k++ {
+				kt := e.tc.Int(int64(k))
+				c := e.tc.Eq(ln, kt)
+				if !e.feasible(st, c) {
+					continue
+				}
+				s2 := st
+				if k < max {
+					s2 = st.fork()
+				}
+				s2.assume(c)
+				e.addInput(s2, InputDecl{Name: name, Kind: "bytes", T: ln, Arr: arr, Max: max})
+				id := e.alloc(s2, ByteBuf{C: &CBase{arr}, Len: kt})
+				outs = append(outs, Outcome{st: s2, rets: []Value{SliceV{Base: Ptr{Obj: id}, Off: e.tc.Int(0), Len: kt, Cap: kt}}})
+			}
+			e.stats.Forks += len(outs)
+			return outs
+		},
 		"vBytesN": func(e *Exec, st *State, fn *ssa.Function, args []Value) []Outcome {
 			name := e.nondetName(st, e.argString(args[0]))
 			n := args[1].(BV).T
@@ -281,6 +308,33 @@ func registerHarnessAPI(e *Exec) {
 			s := args[1].(StringV)
 			st.obs = append(st.obs, Observation{Name: name, Kind: "bytes", C: s.C, Off: s.Off, Len: s.Len})
 			return ret(st)
+		},
+		"vTagMap": func(e *Exec, st *State, fn *ssa.Function, args []Value) []Outcome {
+			// struct value -> map[string]interface{} keyed by the yaml struct tag (the YAML library's contract)
+			iv := args[0].(IfaceV)
+			if iv.T == nil {
+				return ret(st, MapV{Obj: -1})
+			}
+			stt, ok := iv.T.Underlying().(*types.Struct)
+			if !ok {
+				panic(unsupported("vTagMap of %s", iv.T))
+			}
+			sv := iv.V.(StructV)
+			var mo MapObj
+			for i := 0; i < stt.NumFields(); i++ {
+				tag := reflect.StructTag(stt.Tag(i)).Get("yaml")
+				key := strings.Split(tag, ",")[0]
+				if key == "" {
+					key = strings.ToLower(stt.Field(i).Name())
+				}
+				if key == "-" {
+					continue
+				}
+				mo.Keys = append(mo.Keys, e.constString(key))
+				mo.Vals = append(mo.Vals, IfaceV{T: stt.Field(i).Type(), V: sv.F[i]})
+			}
+			id := e.alloc(st, mo)
+			return ret(st, MapV{Obj: id})
 		},
 		"vLog": func(e *Exec, st *State, fn *ssa.Function, args []Value) []Outcome {
 			return ret(st)
